@@ -233,10 +233,14 @@ inductive NSt (α : Type) where
   | skip (i : Nat)
   /-- `fill_deque`: `for _, val in zip(range(maxlen), flow): d.appendleft(val)` after `i` iterations -/
   | fill (i : Nat) (d : List α)
+  /-- `fill_deque` has returned `d` -/
+  | filled (d : List α)
   /-- `for val in flow: yield d.pop(); d.appendleft(val)` -/
   | lag (d : List α)
   /-- `d = deque(flow, maxlen=-start)` -/
   | drain (d : List α)
+  /-- `deque(flow, maxlen=-start)` has returned `d` -/
+  | drained (d : List α)
   /-- `while True: try: yield d.popleft() except IndexError: return` -/
   | emitAll (d : List α)
   /-- `while ind < len_d + stop: yield d.popleft(); ind += 1` with `n` iterations to go -/
@@ -285,13 +289,14 @@ def negStep (start stop : Option Int) (up : Gen σ α) (fu : Nat) : σ × NSt α
       | .fuel => .fuel
       | .error e => .error e
   | (s, .fill i d) =>
-    if i ≥ negLen stop then afterFill start stop s d
+    if i ≥ negLen stop then .cont (s, .filled d)
     else
       match up.next fu s with
       | .item v s' => .cont (s', .fill (i + 1) (Lena.C17.dqAppendLeft (negLen stop) d v))
-      | .done s' => afterFill start stop s' d
+      | .done s' => .cont (s', .filled d)
       | .fuel => .fuel
       | .error e => .error e
+  | (s, .filled d) => afterFill start stop s d
   | (s, .lag d) =>
     match up.next fu s with
     | .item v s' =>
@@ -304,12 +309,13 @@ def negStep (start stop : Option Int) (up : Gen σ α) (fu : Nat) : σ × NSt α
   | (s, .drain d) =>
     match up.next fu s with
     | .item v s' => .cont (s', .drain (Lena.C17.dqAppend (negLen start) d v))
-    | .done s' =>
-      match stop with
-      | none => .cont (s', .emitAll d)
-      | some b => .cont (s', .emitN ((d.length : Int) + b).toNat d)
+    | .done s' => .cont (s', .drained d)
     | .fuel => .fuel
     | .error e => .error e
+  | (s, .drained d) =>
+    match stop with
+    | none => .cont (s, .emitAll d)
+    | some b => .cont (s, .emitN ((d.length : Int) + b).toNat d)    -- `len_d + stop`
   | (s, .emitAll d) =>
     match d with
     | [] => .stop (s, .finished)
@@ -552,7 +558,7 @@ def countSpec (mark : Nat → α → α) (sf : SF α) : SF α :=
 
 /-- value `i` is yielded when value `i + m` is pulled -/
 def lagSpec (m : Nat) (xs : List (α × Nat)) : List (α × Nat) :=
-  List.zipWith (fun p q => (p.1, q.2)) xs (xs.drop m)
+  List.zipWith (fun a q => (a, q.2)) (xs.map Prod.fst) (xs.drop m)
 
 /-- the values of `Lena.C17.runNegative` (list semantics), all yielded at clock `c` -/
 def negValsAt (start stop : Option Int) (xs : List (α × Nat)) (c : Nat) : List (α × Nat) :=
